@@ -1,28 +1,22 @@
 // ---- prelude_compiler.rs: the types of src/ast.rs, src/symbols.rs and src/compiler.rs as Verus sees them (R8) ----
-#[derive(PartialEq, Eq, Structural)]
-pub enum Operator { Add, Subtract, Multiply, Divide, Gt, Gte, Lt, Lte, Eq, Neq, Not, Negate, And, Or, Modulo, Assign }
+//@TYPE file=ast.rs name=Operator attrs="#[derive(PartialEq, Eq, Structural)]"
 
-pub enum Stmt { Let(String, Expr), Return(Expr), Expr(Expr), Block(Vec<Stmt>), Break, Continue }
-pub enum Expr {
-    Infix { left: Box<Expr>, operator: Operator, right: Box<Expr> },
-    Prefix { operator: Operator, right: Box<Expr> },
-    Int { value: isize },
-    Float { value: f64 },
-    Bool { value: bool },
-    If { condition: Box<Expr>, consequence: Vec<Stmt>, alternative: Option<Vec<Stmt>> },
-    Identifier(String),
-    Function { name: String, parameters: Vec<String>, body: Vec<Stmt> },
-    Call { left: Box<Expr>, arguments: Vec<Expr> },
-    Assign { left: Box<Expr>, right: Box<Expr> },
-    String { value: String },
-    Array { values: Vec<Expr> },
-    Index { left: Box<Expr>, index: Box<Expr> },
-    While { condition: Box<Expr>, body: Vec<Stmt> },
+/// meaning of a source operator (property-level table)
+pub open spec fn operator_sem(o: Operator) -> int {
+    match o {
+        Operator::Add => op_add(), Operator::Subtract => op_sub(), Operator::Multiply => op_mul(), Operator::Divide => op_div(), Operator::Modulo => op_rem(),
+        Operator::Lt => op_lt(), Operator::Lte => op_lte(), Operator::Gt => op_gt(), Operator::Gte => op_gte(), Operator::Eq => op_eq(), Operator::Neq => op_neq(),
+        Operator::And => op_and(), Operator::Or => op_or(),
+        _ => op_none(),
+    }
 }
 
-#[derive(PartialEq, Eq, Structural, Copy, Clone)]
-pub enum Scope { Local, Global }
-pub struct Symbol { pub scope: Scope, pub index: u16 }
+//@TYPE file=ast.rs name=Stmt
+//@TYPE file=ast.rs name=BlockStmt
+//@TYPE file=ast.rs name=Expr
+
+//@TYPE file=symbols.rs name=Scope attrs="#[derive(PartialEq, Eq, Structural, Copy, Clone)]"
+//@TYPE file=symbols.rs name=Symbol
 
 /// the symbol table is opaque here; its own contracts are the C09 obligations (Kani, bounded) on src/symbols.rs
 #[verifier::external_body]
@@ -91,7 +85,7 @@ pub uninterp spec fn sym_after_define(t: SymbolTable, name: Seq<char>) -> Symbol
 
 /// `a == b` under Object's PartialEq with equal tags (the test add_constant uses to re-use a slot)
 pub uninterp spec fn pool_equal(a: Object, b: Object) -> bool;
-pub struct LoopContext { pub start: usize, pub break_instructions: Vec<usize> }
+//@TYPE file=compiler.rs name=LoopContext
 
 /// ghost log of the recursive code-generation calls made so far (which sub-tree, in which order)
 pub enum LogWhat { E(Expr), B(Seq<Stmt>), S(Stmt), Stops(Seq<usize>) }
@@ -100,16 +94,8 @@ pub ghost struct LogEntry { pub what: LogWhat, pub start: int, pub end: int, pub
 pub open spec fn entry_e(e: Expr, pre: Compiler, post: Compiler) -> LogEntry { LogEntry { what: LogWhat::E(e), start: pre.instructions@.len() as int, end: post.instructions@.len() as int, depth: sym_depth(pre.symbols), contexts: sym_contexts(pre.symbols) } }
 pub open spec fn entry_s(st: Stmt, pre: Compiler, post: Compiler) -> LogEntry { LogEntry { what: LogWhat::S(st), start: pre.instructions@.len() as int, end: post.instructions@.len() as int, depth: sym_depth(pre.symbols), contexts: sym_contexts(pre.symbols) } }
 
-pub struct Compiler {
-    /// GHOST (not in the real struct, never constructed by extracted code): see LogEntry
-    pub log: Ghost<Seq<LogEntry>>,
-    pub symbols: SymbolTable,
-    pub constants: Vec<Object>,
-    pub instructions: Vec<u8>,
-    pub last_instruction: Option<OpCode>,
-    pub loop_contexts: Vec<LoopContext>,
-    pub gc: GC,
-}
+// the real fields + GHOST field `log` (not in the real struct, never constructed by extracted code): see LogEntry
+//@TYPE file=compiler.rs name=Compiler extra="pub log: Ghost<Seq<LogEntry>>,"
 
 /// state invariant of code generation (requires AND ensures of every generator): the peephole invariant
 pub open spec fn gen_inv(c: Compiler) -> bool { peephole_inv(c) }
@@ -250,14 +236,14 @@ impl Compiler {
     fn compile_expression(&mut self, expr: &Expr) -> (r: Result<(), Error>)
         requires gen_inv(*old(self))
         ensures
-            final(self).log@ == old(self).log@.push(entry_e(*expr, *old(self), *final(self))),
+            r is Ok ==> final(self).log@ == old(self).log@.push(entry_e(*expr, *old(self), *final(self))),
             r is Ok ==> gen_post(*old(self), *final(self), true),
     { unimplemented!() }
     #[verifier::external_body]
     fn compile_statement(&mut self, stmt: &Stmt) -> (r: Result<(), Error>)
         requires gen_inv(*old(self))
         ensures
-            final(self).log@ == old(self).log@.push(entry_s(*stmt, *old(self), *final(self))),
+            r is Ok ==> final(self).log@ == old(self).log@.push(entry_s(*stmt, *old(self), *final(self))),
             r is Ok ==> gen_post(*old(self), *final(self), true),
     { unimplemented!() }
     // block_post: PROVED-BY unit c02_blocks (verbatim body). gen_post: induction hypothesis (assumed).
